@@ -1194,7 +1194,11 @@ class PseudoNetCDFFile(PseudoNetCDFSelfReg, object):
                 vals = np.ma.masked_less_equal(vals, less_equal)
 
             if values is not None:
+                # masked_values rebuilds the mask from the filled data; keep
+                # the cells that were already masked
+                prevmask = np.ma.getmaskarray(vals)
                 vals = np.ma.masked_values(vals, values)
+                vals = np.ma.masked_where(prevmask, vals)
 
             if equal is not None:
                 vals = np.ma.masked_equal(vals, equal)
